@@ -241,6 +241,22 @@ func encodeScheme(sc string, code uint64) string {
 	return sb.String()
 }
 
+// decoderBoundaryRefs: references around every numeric limit a decoder can have.
+func decoderBoundaryRefs() []string {
+	var bnd []string
+	for _, v := range []int{0, 1, 9, 10, 31, 32, 33, 127, 128, 255, 256, 0xFFFF, 0x10000, 0x10FFFF, 0x1000FE, 0x1000FF, 0x100100, 0x100101, 0x1000FF * 10, 0x1000FF*16 + 15, 0x7FFFFFFF, 0xFFFFFFF, 0x80000000, 0xFFFFFFFF, 0x100000000, 0x10000006A} {
+		for _, f := range []string{"&#%d;", "&#%d", "&#%dx", "&#0%d;", "&#x%x;", "&#x%x", "&#X%X;", "&#x0%xg", "&#x%x;;", "&#%d&#%[1]d;", "&#x000000%x;", "&#0000000%d;", "&#x0000000%x", "&#00000000%d"} {
+			bnd = append(bnd, fmt.Sprintf(f, v))
+		}
+	}
+	for _, s := range []string{"&#x1000FF0", "&#1048831", "&#10488310", "&#99999999999999999999;", "&#xFFFFFFFFFFFFFFFFFFFF;", "&#x00000000000000000041;", "&#0000000000000000000065;", "&#18446744073709551681;", "&#x10000000000000041;",
+		"&#x8000000000000000;", "&#x7FFFFFFFFFFFFFFF;", "&#xFFFFFFFFFFFFFFFF;", "&#x1000000000000006A;", "&#9223372036854775807;", "&#9223372036854775808;", "&#9999999999999999999;", "&#18446744073709551615;", "&#18446744073709551616;", "&#18446744073709551722;",
+		"&#x8000000000000041", "&#xF000000000000000x", "&#x000006A;", "&#x0000006A;", "&#x00000006A", "&#00000106;", "&#000000106;", "&#0000000106"} {
+		bnd = append(bnd, s)
+	}
+	return bnd
+}
+
 var c19Junk = []string{"", " ", "\t", "\n", "\x01", "\x7f", "\x80", "\xff", "\xa0 ", "&#9;", "&#x20;", "&#0;", "&#32", " &#10;\x00"}
 var c19Insert = []string{"\x00", "\n", "&#0;", "&#10;", "&#x0A;", "&#x0;", "&#00;"}
 
@@ -367,15 +383,7 @@ func TestC19(t *testing.T) {
 	Ld := pick(6, 7)
 	p = c.rec.NewPart("decoder_exhaustive", fmt.Sprintf("every string of length 0..%d over %v", Ld, decodeAlpha), false, true, "")
 	c.EnumSeq(p, decodeAlpha, "", 0, Ld, func(w *Worker, s string) { w.Judge(ev.Case{Kind: "decode", In: s}) })
-	var bnd []string
-	for _, v := range []int{0, 1, 9, 10, 31, 32, 33, 127, 128, 255, 256, 0xFFFF, 0x10000, 0x10FFFF, 0x1000FE, 0x1000FF, 0x100100, 0x100101, 0x1000FF * 10, 0x1000FF*16 + 15, 0x7FFFFFFF, 0xFFFFFFF} {
-		for _, f := range []string{"&#%d;", "&#%d", "&#%dx", "&#0%d;", "&#x%x;", "&#x%x", "&#X%X;", "&#x0%xg", "&#x%x;;", "&#%d&#%[1]d;"} {
-			bnd = append(bnd, fmt.Sprintf(f, v))
-		}
-	}
-	for _, s := range []string{"&#x1000FF0", "&#1048831", "&#10488310", "&#99999999999999999999;", "&#xFFFFFFFFFFFFFFFFFFFF;", "&#x00000000000000000041;", "&#0000000000000000000065;", "&#18446744073709551681;", "&#x10000000000000041;"} {
-		bnd = append(bnd, s)
-	}
+	bnd := decoderBoundaryRefs()
 	p = c.rec.NewPart("decoder_boundaries", "references around 0x1000FE / 0x1000FF / 0x100100 in decimal and hex, with and without ';', leading zeros, 64-bit wrap-around candidates", false, true, "")
 	c.ParRange(p, int64(len(bnd)), func(w *Worker, i int64) { w.Judge(ev.Case{Kind: "decode", In: bnd[i]}) })
 	p = c.rec.NewPart("rapid_decoder", "rapid: '&#' [xX]? digits{0..24} terminator rest, and arbitrary strings over the decoder alphabet", true, false, "")
